@@ -100,6 +100,160 @@ func orWalk(p []c04Seg, t interface{}) (interface{}, bool) {
 	return v, true
 }
 
+// ---- deep paths: table keys and list indexes ----
+
+type orStep struct {
+	Key string
+	Idx int
+	Is  bool // index step
+}
+
+func orStepsOf(p []c04Seg) []orStep {
+	var out []orStep
+	for _, s := range p {
+		out = append(out, orStep{Key: s.Key})
+		for _, i := range s.Idx {
+			out = append(out, orStep{Idx: i, Is: true})
+		}
+	}
+	return out
+}
+
+// orDeepLeaves: every leaf of t with its step path: scalars, nulls, empty tables and empty
+// lists; list elements by index.
+func orDeepLeaves(t interface{}) (paths [][]orStep, vals []interface{}) {
+	var walk func(p []orStep, v interface{})
+	walk = func(p []orStep, v interface{}) {
+		switch x := v.(type) {
+		case vtree:
+			if len(x) == 0 {
+				break
+			}
+			for _, k := range c04SortedKeys(x) {
+				walk(append(append([]orStep{}, p...), orStep{Key: k}), x[k])
+			}
+			return
+		case []interface{}:
+			if len(x) == 0 {
+				break
+			}
+			for i, e := range x {
+				walk(append(append([]orStep{}, p...), orStep{Idx: i, Is: true}), e)
+			}
+			return
+		}
+		paths = append(paths, p)
+		vals = append(vals, v)
+	}
+	walk(nil, t)
+	return
+}
+
+func orDeepLookup(p []orStep, t interface{}) (interface{}, bool) {
+	v := t
+	for _, s := range p {
+		if s.Is {
+			l, ok := v.([]interface{})
+			if !ok || s.Idx >= len(l) {
+				return nil, false
+			}
+			v = l[s.Idx]
+		} else {
+			m, ok := v.(vtree)
+			if !ok {
+				return nil, false
+			}
+			v, ok = m[s.Key]
+			if !ok {
+				return nil, false
+			}
+		}
+	}
+	return v, true
+}
+
+func orStepsRelated(p, q []orStep) bool {
+	n := len(p)
+	if len(q) < n {
+		n = len(q)
+	}
+	for i := 0; i < n; i++ {
+		if p[i] != q[i] {
+			return false
+		}
+	}
+	return true
+}
+
+func orShowSteps(p []orStep) string {
+	var b strings.Builder
+	for i, s := range p {
+		if s.Is {
+			fmt.Fprintf(&b, "[%d]", s.Idx)
+		} else {
+			if i > 0 {
+				b.WriteByte('.')
+			}
+			b.WriteString(s.Key)
+		}
+	}
+	return b.String()
+}
+
+// orGlobalSources: may the path p (below "global") of a chart's view come from one of these
+// trees' "global" tables?
+func orGlobalHas(p []string, srcs ...vtree) bool {
+	for _, s := range srcs {
+		if s == nil {
+			continue
+		}
+		if g, ok := s["global"].(vtree); ok {
+			if _, ok := vtLookup(p, g); ok {
+				return true
+			}
+		}
+	}
+	return false
+}
+
+func orSection(t vtree, name string) vtree {
+	if t == nil {
+		return nil
+	}
+	m, _ := t[name].(vtree)
+	return m
+}
+
+// orGlobalIsolation: every key below "global" in a chart's view comes from the view of its
+// parent (globals flow down), from the chart's own defaults, or from a section addressed to
+// this chart (by the user or by an ancestor's values.yaml) — never from a sibling or a child.
+func orGlobalIsolation(ch *c04Chart, view vtree, parentView vtree, sections []vtree, where string, report func(path, where string)) {
+	if view == nil {
+		return
+	}
+	if g, ok := view["global"].(vtree); ok {
+		srcs := append([]vtree{parentView, ch.Values}, sections...)
+		for _, p := range vtPaths(g) {
+			if !orGlobalHas(p, srcs...) {
+				report(strings.Join(p, "."), where)
+			}
+		}
+	}
+	for _, d := range ch.Deps {
+		if d.Name == "global" {
+			continue
+		}
+		sub := orSection(view, d.Name)
+		var secs []vtree
+		for _, s := range append([]vtree{ch.Values}, sections...) {
+			if x := orSection(s, d.Name); x != nil {
+				secs = append(secs, x)
+			}
+		}
+		orGlobalIsolation(d, sub, view, secs, where+d.Name+"/", report)
+	}
+}
+
 func orHasKey(p []string, k string) bool {
 	for _, x := range p {
 		if x == k {
@@ -189,6 +343,37 @@ func (*c04) Oracle(ci, oi any) []hx.Violation {
 	}
 	switch c.Kind {
 	case "opts":
+		// frame: a single-path value flag laid over the lower sources leaves every leaf of the
+		// lower result that is neither above nor below a path it names as it was — list
+		// elements at other indexes included
+		for i := 1; i < len(obs.Steps); i++ {
+			before, after := obs.Steps[i-1], obs.Steps[i]
+			named := c.Opts.Named[after.Flag]
+			if before.Err || after.Err || len(named) == 0 {
+				continue
+			}
+			var ns [][]orStep
+			for _, n := range named {
+				ns = append(ns, orStepsOf(n))
+			}
+			paths, vals := orDeepLeaves(before.Out)
+			for j, p := range paths {
+				rel := false
+				for _, n := range ns {
+					if orStepsRelated(p, n) {
+						rel = true
+					}
+				}
+				if rel {
+					continue
+				}
+				got, ok := orDeepLookup(p, after.Out)
+				if !ok || !vtEqual(got, vals[j]) {
+					add("flag-frame", fmt.Sprintf("Options.MergeValues: flag %s names %s but changed %s from %#v to %#v (present=%v)",
+						after.Flag, c04ShowPathLiteral(named[0]), orShowSteps(p), vals[j], got, ok))
+				}
+			}
+		}
 		// the documented order: c.Opts.Assign lists what each source sets, lowest precedence
 		// first; the last source that touches a path (or anything above or below it) decides.
 		as := c.Opts.Assign
@@ -351,6 +536,9 @@ func (*c04) Oracle(ci, oi any) []hx.Violation {
 		for _, d := range c.Chart.Deps {
 			sub[d.Name] = d
 		}
+		orGlobalIsolation(c.Chart, out, nil, []vtree{user}, "", func(path, where string) {
+			add("global-leaks", fmt.Sprintf("%s: global.%s is visible in the view of chart /%s but comes from none of: its parent's view, its own defaults, a section addressed to it (a subchart's global leaked up or sideways)", c.API, path, where))
+		})
 		merge := c.API == "MergeValues"
 		for _, p := range orAllPaths(user, dflt, out) {
 			if orHasKey(p, "global") {
